@@ -340,8 +340,7 @@ def run_case(case, res):
                             bad.append("filter() on a branch changed nodes outside the branch")
             # ---------------- copying forms ------------------------------------
             forms = ["filtered", "copy"] if start == -1 else ["filtered", "copy_self", "copy_noself"]
-            if typed:
-                forms = []  # typed copies are C07's subject (kind of the copied top node); the in-place form is checked here
+            # typed trees: same forms; the comparison is by (data, data_id, shape) - the *kind* of copied nodes is C07's subject
             for which in forms:
                 t, nodes, idx_of = fresh()
                 calls = []
